@@ -7,12 +7,28 @@ from plsa import seedtest
 from plsa.rules import REGISTRY
 base = sys.argv[1]
 write = "--write-expectations" in sys.argv
+# --shard i/n: only every n-th patch (for parallel runs); --out FILE: dump the result table as JSON (merged by --merge)
+shard = None
+out_file = None
+for i, a in enumerate(sys.argv):
+    if a == "--shard":
+        shard = tuple(int(x) for x in sys.argv[i + 1].split("/"))
+    if a == "--out":
+        out_file = sys.argv[i + 1]
 props = sorted(REGISTRY)
 exp = {}
-for d in sorted(os.listdir(base)):
+if "--merge" in sys.argv:
+    for fn in sys.argv[sys.argv.index("--merge") + 1:]:
+        if fn.startswith("--"):
+            break
+        exp.update(json.load(open(fn)))
+    names = []
+else:
+    names = [d for d in sorted(os.listdir(base)) if os.path.exists(os.path.join(base, d, "patch.diff"))]
+    if shard:
+        names = [d for k, d in enumerate(names) if k % shard[1] == shard[0]]
+for d in names:
     p = os.path.join(base, d, "patch.diff")
-    if not os.path.exists(p):
-        continue
     meta = json.load(open(os.path.join(base, d, "meta.json"))) if os.path.exists(os.path.join(base, d, "meta.json")) else {}
     try:
         res = seedtest.run_on_patch(p, props)
@@ -24,6 +40,8 @@ for d in sorted(os.listdir(base)):
     sys.stdout.flush()
     exp[d] = {"breaks": meta.get("property", d.split("-")[0]), "summary": meta.get("summary", ""),
               "needs_to_manifest": meta.get("needs_to_manifest", ""), "detected_by": hits}
+if out_file:
+    json.dump(exp, open(out_file, "w"), indent=1, sort_keys=True)
 if write:
     json.dump(exp, open(os.path.join(base, "expectations.json"), "w"), indent=1, sort_keys=True)
     lines = ["# Seeded changes", "",
